@@ -177,10 +177,11 @@ def split_traces_act(events):
 def stage_model(run):
     """M: design level, exhaustive + negative controls"""
     thorough = run.tier == "thorough"
-    run.tlc_mc("FuseMgr", "FuseMgr_mc.cfg", None, workers=4, timeout=1500)
+    run.tlc_mc("FuseMgr", "FuseMgr_mc.cfg", None if thorough else {"MaxEpoch": "2"}, workers=4, timeout=1500,
+               name="FuseMgr_mc.cfg" if thorough else "FuseMgr_mc.cfg 2 manager processes")
     if thorough:
         run.tlc_mc("FuseMgr", "FuseMgr_mc.cfg", {"MaxInit": "4"}, workers=4, timeout=3000, name="FuseMgr_mc.cfg 4 Init requests")
-        run.tlc_mc("FuseMgr", "FuseMgr_mc.cfg", {"NMp": "3"}, workers=4, timeout=3000, name="FuseMgr_mc.cfg 3 mountpoints")
+        run.tlc_mc("FuseMgr", "FuseMgr_mc.cfg", {"NMp": "3", "Labs": '{"la"}'}, workers=4, timeout=3000, name="FuseMgr_mc.cfg 3 mountpoints, 1 label set")
     for guard, expect in NEGCTL:
         run.tlc_negctl("FuseMgr", "FuseMgr_mc.cfg", {guard: "FALSE", "MaxInit": "2", "MaxEpoch": "2"}, expect, drop=INTERNAL)
     # observation (not part of the verdict): the code stops restoring at the first failing record
